@@ -2,6 +2,8 @@ import Skc.Lemmas.CapaSpec
 import Skc.Lemmas.PenH
 import Skc.Lemmas.CapaGlue
 import Skc.Lemmas.Tables
+import Skc.Lemmas.CapaOn
+import Mathlib.Tactic.IntervalCases
 
 /-! # C03 — CAPA / MVCAPA anomalies maximise the total penalised saving
 
@@ -284,6 +286,82 @@ theorem capa_prefix_wrt_specification (pick : (Nat → α) → List Nat → Nat)
   · intro l' hl'
     exact le_trans (anomVal_mono PSs PS PPs PP hle1 hle2 l') (hub l' hl')
 
+/-! ### the same statement with hypotheses only on what CAPA reads -/
+
+/-- **C03, hypotheses restricted to the intervals CAPA reads.**  As `capa_optimal_wrt_specification`, but
+    the requirements on the savings (length `p`, non-negative, specification value) are asked only of
+    collective candidates `[s, e)` with `m ≤ e - s ≤ M`, `e ≤ n` and of points `t < n` — the only
+    intervals the recursion evaluates and the only ones an admissible anomaly set can contain.  This is
+    the form needed for costs whose savings are well behaved on such intervals only (Gaussian costs above
+    the variance floor). -/
+theorem capa_optimal_wrt_specification_on (pick : (Nat → α) → List Nat → Nat) (pr : α → α → Bool)
+    (hpick : SoundPickMax pick) (hpr : SoundPruneC pr) (eps : α) (csav : Nat → Nat → List α) (psav : Nat → List α)
+    (ca pa : α) (cb pb : List α) (p m M delay n : Nat)
+    (hm : 2 ≤ m) (hmM : m ≤ M) (hd : m ≤ delay + 1) (hp : 0 < p)
+    (hclen : ∀ s e, AdmC m M s e → e ≤ n → (csav s e).length = p) (hplen : ∀ t, t < n → (psav t).length = p)
+    (hcnn : ∀ s e, AdmC m M s e → e ≤ n → ∀ v ∈ csav s e, 0 ≤ v) (hpnn : ∀ t, t < n → ∀ v ∈ psav t, 0 ≤ v)
+    (hsub : ∀ s e0 T, s + m ≤ e0 → e0 + m ≤ T → T ≤ s + M → T ≤ n →
+      SubAdd (csav s T) (csav s e0) (csav e0 T))
+    (okc : PenOK eps p ca cb) (okp : PenOK eps p pa pb)
+    (PSs : Nat → Nat → α) (PPs : Nat → α)
+    (hPSs : ∀ s e, AdmC m M s e → e ≤ n → IsBestSel (csav s e) ca cb (PSs s e))
+    (hPPs : ∀ t, t < n → IsBestSel (psav t) pa pb (PPs t)) :
+    let PS := fun s e => penalise eps (csav s e) ca cb
+    let PP := fun t => penalise eps (psav t) pa pb
+    let r := runCapaG pick pr PS PP (ca + sumL cb) m M delay n
+    ValidAnoms m M 0 r.2 n ∧ anomVal PSs PPs r.2 = r.1 n ∧
+      ∀ l, ValidAnoms m M 0 l n → anomVal PSs PPs l ≤ r.1 n := by
+  intro PS PP r
+  have hne_c : ∀ s e, AdmC m M s e → e ≤ n → csav s e ≠ [] := fun s e h1 h2 h => by
+    have := hclen s e h1 h2; rw [h] at this; simp at this; omega
+  have hne_p : ∀ t, t < n → psav t ≠ [] := fun t ht h => by
+    have := hplen t ht; rw [h] at this; simp at this; omega
+  have okc' : ∀ s e, AdmC m M s e → e ≤ n → PenOK eps (csav s e).length ca cb :=
+    fun s e h1 h2 => by rw [hclen s e h1 h2]; exact okc
+  have okp' : ∀ t, t < n → PenOK eps (psav t).length pa pb := fun t ht => by rw [hplen t ht]; exact okp
+  have H : PruneIneq PS (ca + sumL cb) m M n := by
+    intro s e0 T h1 h2 h3 h4
+    have hadm : AdmC m M s T := ⟨by omega, h3⟩
+    exact penalise_H eps _ _ _ ca cb (hne_c s T hadm h4) (hsub s e0 T h1 h2 h3 h4) (okc' s T hadm h4)
+  obtain ⟨hvalid, hval, hub⟩ :=
+    capaG_optimal pick pr hpick hpr PS PP (ca + sumL cb) m M delay n hm hmM hd H
+  have hposr :=
+    capaG_reported_positive pick pr hpick hpr PS PP (ca + sumL cb) m M delay n hm hmM hd H
+  have hle1 : ∀ s e, AdmC m M s e → e ≤ n → PSs s e ≤ PS s e := by
+    intro s e h1 h2
+    obtain ⟨⟨J, hJ1, hJ2, hJ3⟩, _⟩ := hPSs s e h1 h2
+    rw [← hJ3]
+    exact penalise_ge eps _ ca cb (hne_c s e h1 h2) (hcnn s e h1 h2) (okc' s e h1 h2) J hJ1 hJ2
+  have hle2 : ∀ t, t < n → PPs t ≤ PP t := by
+    intro t ht
+    obtain ⟨⟨J, hJ1, hJ2, hJ3⟩, _⟩ := hPPs t ht
+    rw [← hJ3]
+    exact penalise_ge eps _ pa pb (hne_p t ht) (hpnn t ht) (okp' t ht) J hJ1 hJ2
+  refine ⟨hvalid, ?_, ?_⟩
+  · rw [← hval]
+    apply anomVal_congr
+    intro a ha
+    have hpos := hposr a ha
+    have hmem := validAnoms_mem m M (by omega) _ 0 n hvalid a ha
+    simp only [anomVal1] at hpos ⊢
+    split
+    · rename_i hpt
+      simp only [hpt, if_true] at hpos
+      have ht : a.1 < n := by have := hmem.2; omega
+      have hb := penalise_best_of_pos eps _ pa pb (hne_p a.1 ht) (hpnn a.1 ht) (okp' a.1 ht) hpos
+      exact isBestSel_unique _ _ _ _ _ (hPPs a.1 ht) hb
+    · rename_i hpt
+      simp only [hpt, if_false] at hpos
+      have hadm : AdmC m M a.1 a.2 := by
+        rcases hmem.1 with g | g
+        · exact absurd g hpt
+        · exact g
+      have hb := penalise_best_of_pos eps _ ca cb (hne_c a.1 a.2 hadm hmem.2) (hcnn a.1 a.2 hadm hmem.2)
+        (okc' a.1 a.2 hadm hmem.2) hpos
+      exact isBestSel_unique _ _ _ _ _ (hPSs a.1 a.2 hadm hmem.2) hb
+  · intro l hl
+    exact le_trans (anomVal_mono_valid PSs PS PPs PP m M n (by omega) hle1 hle2 l 0 hl) (hub l hl)
+
 /-! ### composed down to the data: CAPA / MVCAPA with the squared-error saving -/
 
 /-- **C03, squared-error saving, from the rows.**  For a series with `p ≥ 1` columns and the default
@@ -312,6 +390,49 @@ theorem capa_l2_optimal_wrt_specification (pick : (Nat → ℝ) → List Nat →
     (fun s e0 T h1 h2 _ _ => l2Savings_subAdd X p s e0 T (by omega) (by omega))
     okc okp PSs PPs hPSs hPPs
 
+/-- **C03, Gaussian savings, from the rows.**  CAPA / MVCAPA with the per-column Gaussian saving
+    (`Saving(GaussianVarCost(param=(μ, v)))`: fixed-parameter cost minus optimal cost, both from prefix
+    sums, `gaussSavings`) for collective anomalies and the default squared-error saving for points.
+    If the baseline variances are positive and every interval of at least `m` rows inside `[0, n]` has,
+    in every column, an empirical variance at or above the floor `1e-16` (at the floor itself the claim
+    is excluded by the property), then all hypotheses about the savings are theorems: non-negativity
+    (`gaussTable_le_fixed`), column-wise sub-additivity under splitting (`gaussSavings_subAdd`: the
+    fixed-parameter cost is additive, the optimal cost obeys the split inequality).  Hence for all such
+    data, all `PenOK` penalties and every policy of the family the reported anomalies are an admissible
+    set whose total specification saving is the final score, and no admissible set saves more. -/
+theorem capa_gauss_optimal_wrt_specification (pick : (Nat → ℝ) → List Nat → Nat) (pr : ℝ → ℝ → Bool)
+    (hpick : SoundPickMax pick) (hpr : SoundPruneC pr) (eps : ℝ) (X : ℕ → ℕ → ℝ) (μ v : ℕ → ℝ)
+    (ca pa : ℝ) (cb pb : List ℝ) (p m M delay n : Nat)
+    (hm : 2 ≤ m) (hmM : m ≤ M) (hd : m ≤ delay + 1) (hp : 0 < p)
+    (hv : ∀ j, j < p → 0 < v j)
+    (habove : ∀ j, j < p → ∀ a b, a + m ≤ b → b ≤ n → varFloorConst ≤ segVar (X j) a b)
+    (okc : PenOK eps p ca cb) (okp : PenOK eps p pa pb)
+    (PSs : Nat → Nat → ℝ) (PPs : Nat → ℝ)
+    (hPSs : ∀ s e, AdmC m M s e → e ≤ n → IsBestSel (gaussSavings X μ v p s e) ca cb (PSs s e))
+    (hPPs : ∀ t, t < n → IsBestSel (l2Savings X p t (t + 1)) pa pb (PPs t)) :
+    let PS := fun s e => penalise eps (gaussSavings X μ v p s e) ca cb
+    let PP := fun t => penalise eps (l2Savings X p t (t + 1)) pa pb
+    let r := runCapaG pick pr PS PP (ca + sumL cb) m M delay n
+    ValidAnoms m M 0 r.2 n ∧ anomVal PSs PPs r.2 = r.1 n ∧
+      ∀ l, ValidAnoms m M 0 l n → anomVal PSs PPs l ≤ r.1 n :=
+  capa_optimal_wrt_specification_on pick pr hpick hpr eps (fun s e => gaussSavings X μ v p s e)
+    (fun t => l2Savings X p t (t + 1)) ca pa cb pb p m M delay n hm hmM hd hp
+    (fun s e _ _ => gaussSavings_length X μ v p s e) (fun t _ => l2Savings_length X p t (t + 1))
+    (fun s e hadm hen => gaussSavings_nonneg X μ v p s e (by obtain ⟨h1, _⟩ := hadm; omega) hv
+      (fun j hj => habove j hj s e hadm.1 hen))
+    (fun t _ => l2Savings_nonneg X p t (t + 1))
+    (fun s e0 T h1 h2 _ h4 => gaussSavings_subAdd X μ v p m n s e0 T (by omega) h1 h2 h4 habove)
+    okc okp PSs PPs hPSs hPPs
+
+/-- the scores and anomalies of CAPA / MVCAPA are functions of the penalised savings of the admissible
+    intervals alone: two saving tables that agree on every collective candidate with `m ≤ e - s ≤ M`,
+    `e ≤ n` and on every point `t < n` give identical output (`Lemmas/CapaOn.lean`) -/
+theorem capa_output_depends_on_admissible_intervals (PS PS' : Nat → Nat → α) (PP PP' : Nat → α) (K : α)
+    (m M delay n : Nat) (hm : 1 ≤ m) (hmM : m ≤ M)
+    (h : ∀ s e, s + m ≤ e → e ≤ s + M → e ≤ n → PS s e = PS' s e) (hp : ∀ t, t < n → PP t = PP' t) :
+    runCapa PS PP K m M delay n = runCapa PS' PP' K m M delay n :=
+  runCapaG_congr_read argmaxL prLt pickExt_argmaxL pickMem_argmaxL PS PS' PP PP' K m M delay n hm hmM h hp
+
 /-! ### Non-vacuity and the negative result for the pinned code -/
 
 /-- the penalty hypotheses are satisfiable: `alpha = 3`, equal betas `[2, 2]` for `p = 2` columns -/
@@ -324,5 +445,13 @@ example : PruneIneq (fun s e => ((e : Int) - s) - 3) 3 2 5 12 := by
 
 example : (runCapa (fun s e => ((e : Int) - s) - 3) (fun t => if t = 9 then 2 else -1) 3 2 5 1 12).2
     = [(0, 4), (4, 9), (9, 10)] := by decide +kernel
+
+/-- the floor hypothesis of `capa_gauss_optimal_wrt_specification` is satisfiable: the alternating series
+    0, 1, 0, 1 has an empirical variance above the floor on every interval of at least two rows in `[0, 4]` -/
+example : ∀ a b, a + 2 ≤ b → b ≤ 4 → varFloorConst ≤ segVar (fun i => ((i % 2 : ℕ) : ℝ)) a b := by
+  intro a b h1 h2
+  have ha : a ≤ 2 := by omega
+  interval_cases a <;> interval_cases b <;>
+    simp [segVar, segSum, varFloorConst, Finset.sum_Ico_eq_sum_range, Finset.sum_range_succ] <;> norm_num
 
 end Skc
